@@ -47,6 +47,13 @@ Defects(c) ==
             ELSE { [c EXCEPT !.host.defect = d] : d \in {"v6noncanon", "v6zone", "v4mapped", "v6nobracket"} } \cup { [c EXCEPT !.wild = "lead"] })
   \cup { [c EXCEPT !.port = p] : p \in {Port("empty", 0, 0, FALSE), Port("num", 0, 1, FALSE), Port("num", 65536, 5, FALSE), Port("num", 123456, 6, FALSE),
                                         Port("num", 80, 3, TRUE), Port("neg", 1, 1, FALSE), Port("junk", 0, 0, FALSE), Port("starjunk", 0, 0, FALSE)} }
+  \* over-range ports at the places where a narrower integer, a wrapped accumulator or a digit-count test would go wrong: just above
+  \* 2^16, 2^16 + a valid port, the last / first value for which 10 * port + digit wraps past itself in 16 bits, the largest five-digit
+  \* number, six and more digits, 2^17 + 80, 2^31 - 1; 2^32 + 80 and 2^64 + 80 (kinds of their own: TLC integers have 32 bits)
+  \cup { [c EXCEPT !.port = Port("num", v[1], v[2], FALSE)] :
+            v \in {<<65537, 5>>, <<65616, 5>>, <<70000, 5>>, <<72816, 5>>, <<72817, 5>>, <<99999, 5>>, <<100000, 6>>, <<131152, 6>>,
+                   <<655360, 6>>, <<1000000, 7>>, <<2147483647, 10>>} }
+  \cup { [c EXCEPT !.port = Port(k, 0, 0, FALSE)] : k \in {"wrap32", "wrap64"} }
   \cup (IF c.scheme.cls = "http" THEN { [c EXCEPT !.port = Port("num", 80, 2, FALSE)] } ELSE {})
   \cup (IF c.scheme.cls = "https" THEN { [c EXCEPT !.port = Port("num", 443, 3, FALSE)] } ELSE {})
   \cup { [c EXCEPT !.tail = x] : x \in {"userinfo", "slash", "path", "query", "fragment", "wsbefore", "wsafter"} }
